@@ -413,4 +413,59 @@ theorem wf_init : Heap.init.WF := by
   | zero => simp [parentAt, Heap.init] at hq
   | succ n => simp [parentAt, Heap.init] at hq
 
+/-! ### frames: what a block may do to the scopes that existed before it -/
+
+/-- `h` came from `h0` by allocating new scopes and by *assigning* to variables the old
+scopes already declared: every old scope still has the same parent and declares exactly the
+names it declared (values may differ). -/
+def Heap.Upd (h0 h : Heap) : Prop :=
+  h0.size ≤ h.size ∧ ∀ i, i < h0.size → parentAt h i = parentAt h0 i ∧ ∀ y, declares h y i = declares h0 y i
+
+theorem Heap.Upd.refl (h : Heap) : h.Upd h := ⟨Nat.le_refl _, fun _ _ => ⟨rfl, fun _ => rfl⟩⟩
+
+theorem Heap.Ext.toUpd {h0 h : Heap} (he : h0.Ext h) : h0.Upd h :=
+  ⟨he.1, fun i hi => by simp [parentAt, declares, varsAt, he.2 i hi]⟩
+
+theorem Heap.Upd.trans_ext {a b c : Heap} (hab : a.Upd b) (hbc : b.Ext c) : a.Upd c := by
+  refine ⟨Nat.le_trans hab.1 hbc.1, fun i hi => ?_⟩
+  have hib : i < b.size := by have := hab.1; omega
+  have := hab.2 i hi
+  simp only [parentAt, declares, varsAt, hbc.2 i hib] at this ⊢
+  exact this
+
+theorem Heap.Upd.trans {a b c : Heap} (hab : a.Upd b) (hbc : b.Upd c) : a.Upd c := by
+  refine ⟨Nat.le_trans hab.1 hbc.1, fun i hi => ?_⟩
+  have hib : i < b.size := by have := hab.1; omega
+  obtain ⟨p1, d1⟩ := hab.2 i hi
+  obtain ⟨p2, d2⟩ := hbc.2 i hib
+  exact ⟨p2.trans p1, fun y => (d2 y).trans (d1 y)⟩
+
+theorem upd_insertAt_newer {h0 h : Heap} (hu : h0.Upd h) {t : Nat} (ht : h0.size ≤ t) (x : Name) (v : V) :
+    h0.Upd (insertAt h t x v) := by
+  refine ⟨by rw [size_insertAt]; exact hu.1, fun i hi => ?_⟩
+  have hit : i ≠ t := by omega
+  have := hu.2 i hi
+  simp only [parentAt, declares, varsAt, getElem?_insertAt_ne h hit] at this ⊢
+  exact this
+
+theorem upd_markLoopVar_newer {h0 h : Heap} (hu : h0.Upd h) {t : Nat} (ht : h0.size ≤ t) (x : Name) :
+    h0.Upd (markLoopVar h t x) := by
+  refine ⟨by simp [markLoopVar]; exact hu.1, fun i hi => ?_⟩
+  have hit : t ≠ i := by omega
+  have := hu.2 i hi
+  simp only [parentAt, declares, varsAt, markLoopVar, Array.getElem?_modify, hit, if_false] at this ⊢
+  exact this
+
+/-- assigning to a variable the scope already declares is an `Upd` step -/
+theorem upd_insertAt_declared (h : Heap) (t : Nat) (x : Name) (v : V) (hd : declares h x t = true) :
+    h.Upd (insertAt h t x v) := by
+  refine ⟨by rw [size_insertAt]; exact Nat.le_refl _, fun i hi => ⟨parentAt_insertAt h t i x v, fun y => ?_⟩⟩
+  by_cases hit : i = t
+  · subst hit
+    simp only [declares, varsAt_insertAt_self h i hi]
+    by_cases hy : y = x
+    · subst hy; simpa [getAssoc_setAssoc_self, declares] using hd.symm
+    · rw [getAssoc_setAssoc_ne hy]
+  · simp [declares, varsAt, getElem?_insertAt_ne h hit]
+
 end Core
